@@ -22,13 +22,21 @@ impl ExecutionFrontier {
         loop {
             let mut end = start;
             while end < self.executed.len() && self.executed[end].load(Ordering::Acquire) {
+                #[cfg(grevm_verif)]
+                crate::verif::p2("fr_flag_load", end as i64, 1);
                 end += 1;
+            }
+            #[cfg(grevm_verif)]
+            if end < self.executed.len() {
+                crate::verif::p2("fr_flag_load", end as i64, 0);
             }
             if end == start {
                 return;
             }
 
             let current = self.frontier.fetch_max(end, Ordering::AcqRel);
+            #[cfg(grevm_verif)]
+            crate::verif::p2("fr_fetch_max", end as i64, current as i64);
             start = max(current, end);
         }
     }
@@ -39,14 +47,20 @@ impl ExecutionFrontier {
     /// A single atomic update publishes the whole contiguous run that is already complete.
     fn publish(&self, index: usize) {
         let frontier = self.frontier.load(Ordering::Acquire);
+        #[cfg(grevm_verif)]
+        crate::verif::p2("fr_pub_load1", index as i64, frontier as i64);
         if index < frontier {
             return;
         }
 
         self.executed[index].store(true, Ordering::Release);
+        #[cfg(grevm_verif)]
+        crate::verif::p1("fr_flag_store", index as i64);
         // Reload after publishing. The frontier may have reached `index` between the first load
         // and the store; using the stale value would leave the newly filled gap unadvanced.
         let frontier = self.frontier.load(Ordering::Acquire);
+        #[cfg(grevm_verif)]
+        crate::verif::p2("fr_pub_load2", index as i64, frontier as i64);
         if index == frontier {
             self.advance(frontier);
         }
@@ -57,12 +71,20 @@ impl ExecutionFrontier {
     /// Readers participate in lock-free progress by advancing a ready frontier if needed.
     fn current(&self) -> usize {
         let frontier = self.frontier.load(Ordering::Acquire);
+        #[cfg(grevm_verif)]
+        crate::verif::p1("fr_cur_load", frontier as i64);
         // Lock-free helpers may observe a completion whose publishing worker has not advanced the
         // frontier yet. Help it here so a delayed publisher cannot stall validation progress.
         if frontier < self.executed.len() && self.executed[frontier].load(Ordering::Acquire) {
+            #[cfg(grevm_verif)]
+            crate::verif::p2("fr_cur_flag", frontier as i64, 1);
             self.advance(frontier);
+            #[cfg(grevm_verif)]
+            crate::verif::p1("fr_cur_ret", self.frontier.load(Ordering::Acquire) as i64);
             return self.frontier.load(Ordering::Acquire);
         }
+        #[cfg(grevm_verif)]
+        crate::verif::p1("fr_cur_ret", frontier as i64);
         frontier
     }
 }
@@ -107,8 +129,14 @@ impl SchedulerContext {
         // and checks status plus this timestamp under transaction locks, so a validation predating
         // this rewind cannot enter the stable prefix afterward.
         let timestamp = self.logical_clock.fetch_add(1, Ordering::AcqRel);
+        #[cfg(grevm_verif)]
+        crate::verif::p1("clock_tick", timestamp as i64);
         self.lower_timestamps[index].fetch_max(timestamp, Ordering::AcqRel);
+        #[cfg(grevm_verif)]
+        crate::verif::p2("lower_max", index as i64, timestamp as i64);
         let previous = self.validation.rewind(index);
+        #[cfg(grevm_verif)]
+        crate::verif::p2("cur_rewind", index as i64, previous as i64);
         if previous > index {
             self.validation_resets.fetch_add(1, Ordering::Relaxed);
         }
@@ -116,6 +144,8 @@ impl SchedulerContext {
 
     #[inline]
     pub(super) fn logical_timestamp(&self) -> usize {
+        #[cfg(grevm_verif)]
+        crate::verif::p1("clock_peek", self.logical_clock.load(Ordering::Acquire) as i64);
         self.logical_clock.fetch_add(1, Ordering::AcqRel)
     }
 
@@ -127,6 +157,8 @@ impl SchedulerContext {
     #[inline]
     pub(super) fn unconfirmed(&self, index: usize, timestamp: usize) {
         self.unconfirmed_timestamps[index].fetch_max(timestamp, Ordering::AcqRel);
+        #[cfg(grevm_verif)]
+        crate::verif::p2("unconf_max", index as i64, timestamp as i64);
     }
 
     #[inline]
@@ -142,6 +174,8 @@ impl SchedulerContext {
     #[inline]
     pub(super) fn publish_finality(&self, index: usize) {
         self.finality.publish(index);
+        #[cfg(grevm_verif)]
+        crate::verif::p1("fin_publish", index as i64);
     }
 
     #[inline]
@@ -152,6 +186,8 @@ impl SchedulerContext {
     #[inline]
     pub(super) fn publish_commit(&self, index: usize) {
         self.committed.publish(index);
+        #[cfg(grevm_verif)]
+        crate::verif::p1("commit_publish", index as i64);
     }
 
     #[inline]
@@ -266,5 +302,86 @@ mod tests {
         claimed.sort_unstable();
         assert_eq!(claimed, (0..5).collect::<Vec<_>>());
         assert_eq!(context.validation_idx(), 5);
+    }
+}
+
+/// Differential-driver access (see `crate::verif`).
+#[cfg(grevm_verif)]
+pub mod verif_access {
+    #![allow(missing_docs, missing_debug_implementations, unreachable_pub)]
+    use std::sync::atomic::Ordering;
+
+    pub struct FrontierV(super::ExecutionFrontier);
+    impl FrontierV {
+        pub fn new(num_txs: usize) -> Self {
+            Self(super::ExecutionFrontier::new(num_txs))
+        }
+        pub fn publish(&self, index: usize) {
+            self.0.publish(index)
+        }
+        pub fn current(&self) -> usize {
+            self.0.current()
+        }
+        pub fn raw_frontier(&self) -> usize {
+            self.0.frontier.load(Ordering::Acquire)
+        }
+        pub fn flag(&self, index: usize) -> bool {
+            self.0.executed[index].load(Ordering::Acquire)
+        }
+    }
+
+    pub struct ContextV(super::SchedulerContext);
+    impl ContextV {
+        pub fn new(num_txs: usize) -> Self {
+            Self(super::SchedulerContext::new(num_txs))
+        }
+        pub fn rewind_validation_to(&self, index: usize) {
+            self.0.rewind_validation_to(index)
+        }
+        pub fn logical_timestamp(&self) -> usize {
+            self.0.logical_timestamp()
+        }
+        pub fn executed(&self, index: usize) {
+            self.0.executed(index)
+        }
+        pub fn unconfirmed(&self, index: usize, timestamp: usize) {
+            self.0.unconfirmed(index, timestamp)
+        }
+        pub fn finished(&self) -> bool {
+            self.0.finished()
+        }
+        pub fn finality_idx(&self) -> usize {
+            self.0.finality_idx()
+        }
+        pub fn publish_finality(&self, index: usize) {
+            self.0.publish_finality(index)
+        }
+        pub fn committed_idx(&self) -> usize {
+            self.0.committed_idx()
+        }
+        pub fn publish_commit(&self, index: usize) {
+            self.0.publish_commit(index)
+        }
+        pub fn validation_idx(&self) -> usize {
+            self.0.validation_idx()
+        }
+        pub fn validation_reset_count(&self) -> usize {
+            self.0.validation_reset_count()
+        }
+        pub fn lower_timestamp(&self, index: usize) -> usize {
+            self.0.lower_timestamp(index)
+        }
+        pub fn unconfirmed_timestamp(&self, index: usize) -> usize {
+            self.0.unconfirmed_timestamp(index)
+        }
+        pub fn execution_frontier(&self) -> usize {
+            self.0.execution_frontier()
+        }
+        pub fn should_schedule(&self, executing_idx: usize) -> bool {
+            self.0.should_schedule(executing_idx)
+        }
+        pub fn next_validation_idx(&self, executing_idx: usize) -> Option<usize> {
+            self.0.next_validation_idx(executing_idx)
+        }
     }
 }
